@@ -111,7 +111,7 @@ fn main() {
         let mut real = UdpSocket::bind("127.0.0.1:0").unwrap();
         Socket::set_read_timeout(&mut real, Duration::from_secs(3)).unwrap();
         let to = real.local_addr().unwrap();
-        for p in packets() {
+        for p in packets().into_iter().filter(|p| !matches!(p, Packet::Error { .. })) {   // (C02 is about DATA coming in whole)
             let len = if let Packet::Data { data, .. } = &p { data.len() } else { 512 };
             for blk in [std::cmp::max(len, 8), 65464] {
                 if rfc(&p).len() > blk + 4 {
